@@ -8,6 +8,8 @@ Forms recognised (all occur, or occurred in refactors, in this repository):
     if arg in TABLE: return TABLE[arg]   ...   return D
     for v in range(A, B[, S]):  if other(v) == arg: return v      (search over a sibling table function)
     for k, v in TABLE.items():  if v == arg: return k             (reverse search, first hit wins)
+    for i, v in enumerate(SEQ):  if arg == i: return v  /  if v == arg: return i
+    return SEQ.index(arg)  /  SEQ[arg]   [inside  try: ..  except ValueError / KeyError / IndexError: return D]
 """
 from __future__ import annotations
 
@@ -43,6 +45,12 @@ def extract(fn: ast.FunctionDef, lit: Callable[[ast.AST], object], sibling: Call
             raise Unknown(f"{ast.unparse(n)} is not a literal dict")
         return v
 
+    def lit_or_none(n):
+        try:
+            return lit(n)
+        except Exception:
+            return None
+
     def put(k, v):
         try:
             hash(k)
@@ -58,6 +66,19 @@ def extract(fn: ast.FunctionDef, lit: Callable[[ast.AST], object], sibling: Call
             for k, v in d.items():
                 put(k, v)
             state["default"] = lit(e.args[1]) if len(e.args) > 1 else None
+            return True
+        if isinstance(e, ast.Call) and isinstance(e.func, ast.Attribute) and e.func.attr == "index" and len(e.args) == 1 and is_arg(e.args[0]):
+            seq = lit(e.func.value)
+            if not isinstance(seq, (list, tuple)):
+                raise Unknown(f"{ast.unparse(e.func.value)} is not a literal sequence")
+            for i, v in enumerate(seq):
+                put(v, i)             # .index: the first occurrence wins
+            state["default"] = KeyError      # (ValueError when absent: the table is partial)
+            return True
+        if isinstance(e, ast.Subscript) and is_arg(e.slice) and isinstance(lit_or_none(e.value), (list, tuple)):
+            for i, v in enumerate(lit(e.value)):
+                put(i, v)
+            state["default"] = KeyError
             return True
         if isinstance(e, ast.Subscript) and is_arg(e.slice):
             d = dict_of(e.value)
@@ -109,6 +130,15 @@ def extract(fn: ast.FunctionDef, lit: Callable[[ast.AST], object], sibling: Call
             if isinstance(s, ast.For):
                 loop(s)
                 continue
+            if isinstance(s, ast.Try) and not s.finalbody and not s.orelse and len(s.body) == 1 and isinstance(s.body[0], ast.Return) and \
+                    s.body[0].value is not None and len(s.handlers) == 1 and len(s.handlers[0].body) == 1 and isinstance(s.handlers[0].body[0], ast.Return) and \
+                    s.handlers[0].type is not None and ast.unparse(s.handlers[0].type) in ("ValueError", "KeyError", "IndexError", "(KeyError, IndexError)", "LookupError"):
+                # try: return TABLE.index(arg) / TABLE[arg]   except <lookup error>: return D
+                if ret_expr(s.body[0].value) and state["default"] is KeyError:
+                    hv = s.handlers[0].body[0].value
+                    state["default"] = lit(hv) if hv is not None else None
+                    return True
+                raise Unknown("try body is not a table lookup")
             if isinstance(s, ast.Raise):
                 state["default"] = KeyError
                 return True
@@ -158,6 +188,18 @@ def extract(fn: ast.FunctionDef, lit: Callable[[ast.AST], object], sibling: Call
                         put(v, k)
                     else:
                         put(k, v)
+                return
+        # for i, name in enumerate(TABLE): if arg == i: return name   (or: if name == arg: return i)
+        if isinstance(it, ast.Call) and isinstance(it.func, ast.Name) and it.func.id == "enumerate" and len(it.args) == 1 and not it.keywords and \
+                isinstance(s.target, ast.Tuple) and len(s.target.elts) == 2 and all(isinstance(x, ast.Name) for x in s.target.elts):
+            i_n, v_n = s.target.elts[0].id, s.target.elts[1].id
+            seq = lit(it.args[0])
+            if isinstance(seq, (list, tuple)) and isinstance(lhs, ast.Name) and isinstance(r, ast.Name) and {lhs.id, r.id} == {i_n, v_n}:
+                for i, v in enumerate(seq):
+                    if lhs.id == i_n:
+                        put(i, v)
+                    else:
+                        put(v, i)
                 return
         raise Unknown("unrecognised search loop")
 
